@@ -101,7 +101,7 @@ def space_nonsyntactic_nullable_field(d):
                 return True
     if k in ("dcgen", "dcgeninh") and nullable(d[1]):
         return True
-    if k in ("dcinh", "dcself", "dcselft", "dcfwd") and nullable(d[1]) and not syntactic(d[1]):
+    if k in ("dcinh", "dcself", "dcselft", "dcfwd", "dcmut") and nullable(d[1]) and not syntactic(d[1]):
         return True
     return any(space_nonsyntactic_nullable_field(c) for c in space.children(d))
 
